@@ -1411,8 +1411,15 @@ class ProofsFamily(StaleFamily):
             d = rng.choice([1, 1, 2])
             big = lambda: rng.randint(200, 270)     # noqa: E731
             plan.append(dict(op='mine', n=d, ntx=[big() for _ in range(d)], seed=rng.getrandbits(32)))
-            plan.append(dict(op='settle'))
-            tq = round(rng.uniform(0.3, 3.0), 2)
+            # variant "fresh": no quiescence sweep between the large blocks and the storm - the first proof request
+            # for such a height is a cache miss and builds the per-height merkle cache while the fork arrives
+            fresh = rng.random() < 0.5
+            if fresh:
+                k['queue_p'] = rng.choice([0.3, 0.6, 0.9])
+                tq = round(rng.uniform(1.0, 10.0), 2)
+            else:
+                plan.append(dict(op='settle'))
+                tq = round(rng.uniform(0.3, 3.0), 2)
             for _ in range(rng.randint(1, 3)):
                 # storms start a little before the fork and go on until the server has dealt with it; mostly
                 # they ask only about the transactions of the block about to be replaced, so that nothing but a
@@ -1420,9 +1427,11 @@ class ProofsFamily(StaleFamily):
                 plan.append(dict(op='c_query', c=rng.randrange(nclients),
                                  m=rng.choice(['get_tsc_merkle', 'get_tsc_merkle', 'get_merkle']),
                                  back=rng.randrange(d), h=0, pos=rng.randrange(400), merkle=True,
-                                 tt=rng.randrange(3), at=round(max(0.01, tq - rng.uniform(0.0, 1.0)), 2),
+                                 tt=rng.randrange(3),
+                                 at=round(max(0.01, tq - rng.uniform(0.0, tq if fresh else 1.0)), 2),
                                  alt=rng.choice(['first', 'first', 'first', 'rotate']),
-                                 rep=rng.choice([30, 45, 60]), every=rng.choice([0.15, 0.2, 0.3])))
+                                 rep=rng.choice([60, 90] if fresh else [30, 45, 60]),
+                                 every=rng.choice([0.15, 0.2, 0.3])))
             plan.append(dict(op='fork', depth=d, extra=1, ntx=[big() for _ in range(d)] + [2], remine=0.0,
                              at=tq, seed=rng.getrandbits(32)))
             plan.append(dict(op='settle'))
